@@ -10,6 +10,7 @@ Always-on oracle (also the search): exhaustive enumeration of all allele multise
 the structure with the documented closed-form error; clause-by-clause check of the real return.
 """
 import collections
+import os
 import itertools
 from fractions import Fraction
 
@@ -212,6 +213,29 @@ def band_instance(r, gdesc):
     return inst
 
 
+def orphan_instance(r, gdesc):
+    """a database with catalogued function-altering variants that belong to NO allele (the `random:` section of a gene
+    file); two default copies planted and one such variant observed at one copy's depth: it is observed core evidence like
+    any other, so a feasible point carries it or flags it as novel and pays for it"""
+    from aldy.solutions import CNSolution
+    gene, gid = instances.load_gene(gdesc)
+    if "1" not in gene.cn_configs or "1" not in gene.alleles:
+        return None
+    owned = {(m.pos, m.op) for a in gene.alleles.values() for m in a.func_muts}
+    cn2 = CNSolution(gene, 0, ["1", "1"])
+    cand = [m for m in gene.mutations if gene.is_functional(m) and m not in owned and ">" in m[1] and len(m[1]) == 3 and cn2.position_cn(m[0]) == 2]
+    if not cand:
+        return None
+    mi = sorted(gene.alleles["1"].minors)[0]
+    table = instances.plant_table(r, gene, cn2, [("1", mi), ("1", mi)], with_minors=False, noise=False)
+    m = r.choice(cand)
+    table = [t for t in table if t[0] != m[0]]
+    table.append([m[0], m[1], [[60, 40, 20]]])
+    table.append([m[0], "_", [[60, 40, 20]]])
+    desc = {"gene": instances.gene_short(gdesc), "structure": ["1", "1"], "planted": [["1", mi], ["1", mi]], "table": table, "indel_table": None, "profile": {}}
+    return instances.major_from_desc(desc)
+
+
 def describe(inst):
     return {"gene": inst["gene_desc"], "structure": inst["structure"], "planted": inst["planted"], "table": inst["table_desc"],
             "indel_table": inst["indel_desc"], "profile": inst["profile_desc"]}
@@ -236,6 +260,14 @@ def tie(ctx):
         bi = band_instance(r, genes[(3 * j_ + 1) % len(genes)])
         if bi is not None:
             insts.append(bi)
+    import gen_gene
+    orphan_pool = [{"kind": "generated", "genome": r.choice(["hg19", "hg38"]), "yaml": gen_gene.with_random(r, gen_gene.gen_gene(r))} for _ in range(4 if quick else 30)]
+    orphan_pool += [{"kind": "shipped", "name": "gstp1", "genome": "hg38"}] if os.path.exists(os.path.join(lib.REPO, "aldy/resources/genes/gstp1.yml")) else []
+    for gd in orphan_pool:
+        oi = orphan_instance(r, gd)
+        if oi is not None:
+            insts.append(oi)
+    n_orphan = sum(1 for gd in orphan_pool)
     n = 260 if quick else 4000
     skipped = 0
     while len(insts) < n:
